@@ -119,9 +119,37 @@ def bind(sym, t, kinds):
         return None
 
 
-def rel_same(a, b):
-    """Structural identity of two symbolic types (identifiers are 16-bit tokens here)."""
-    return vtref.same(vtref.T(a), vtref.T(b))
+def kid(v, variant):
+    """The boxed component of `variant` of a value built by the code (no slot sharing between its variants)."""
+    f = v.variants.get(variant) if isinstance(v, EnumV) else None
+    if not f or not isinstance(f[0], (BoxV, BoxPtr)):
+        return None
+    return f[0].content
+
+
+def rel_same(out, t):
+    """out is the same type as the symbolic input type t (identifiers are 16-bit tokens here)."""
+    if out is None or t is None or not isinstance(out, EnumV) or not isinstance(t, EnumV):
+        return z3.BoolVal(False)
+    cases = [out.discr == t.discr]
+    for vname, d, fields in t.edef.variants:
+        if vname not in t.variants or not fields:
+            continue
+        here = t.discr == bv(d, 64)
+        fo = out.variants.get(vname)
+        if fo is None:
+            cases.append(znot(here))
+            continue
+        eqs = []
+        for x, y in zip(fo, t.variants[vname]):
+            if isinstance(y, (BoxV, BoxPtr)):
+                eqs.append(rel_same(x.content if isinstance(x, (BoxV, BoxPtr)) else None, y.content))
+            elif isinstance(y, EnumV):
+                eqs.append(vtref.opt_eq(x, y))
+            else:
+                eqs.append(x == y)
+        cases.append(z3.Implies(here, zand(*eqs)))
+    return zand(*cases)
 
 
 def rel_ext(out, t):
@@ -130,14 +158,14 @@ def rel_ext(out, t):
         return z3.BoolVal(False)
     To, Tt = vtref.T(out), vtref.T(t)
     cases = [z3.Implies(Tt.is_(n), To.is_(n)) for n in ABI_LEAVES]
-    co, ct = To.child(), Tt.child()
-    if co is not None and ct is not None:
-        deeper = rel_ext(co.v, ct.v)
-        cases.append(z3.Implies(Tt.is_('Arraylike'), zand(To.is_('EndlessArray'), deeper)))
-        cases.append(z3.Implies(Tt.is_('Pointer'), zand(To.is_('Pointer'), deeper)))
-        cases.append(z3.Implies(Tt.is_('View'), zand(To.is_('View'), deeper)))
+    ct = Tt.child()
+    if ct is not None:
+        cases.append(z3.Implies(Tt.is_('Arraylike'), zand(To.is_('EndlessArray'), rel_ext(kid(out, 'EndlessArray'), ct.v))))
+        cases.append(z3.Implies(Tt.is_('Pointer'), zand(To.is_('Pointer'), rel_ext(kid(out, 'Pointer'), ct.v))))
+        cases.append(z3.Implies(Tt.is_('View'), zand(To.is_('View'), rel_ext(kid(out, 'View'), ct.v))))
     else:
         cases.append(znot(Tt.is_('Arraylike', 'Pointer', 'View')))
+    cases.append(Tt.is_('Arraylike', 'Pointer', 'View', *ABI_LEAVES))
     return zand(*cases)
 
 
@@ -170,19 +198,28 @@ def run(S, tier):
     return out
 
 
-def _solve(S, ex, items, handle):
-    """items: (name, formula, text, kind).  Decided in-process with the QF_BV solver; `handle(q, name, text, kind, model)`
-    is called for satisfiable claims."""
+def _solve(S, ex, items, handle, parallel=False, timeout_s=1800):
+    """items: (name, formula, text, kind).  Decided with the QF_BV solver, in-process or (parallel) one z3 process per
+    query; `handle(q, name, text, kind, model)` is called for every query (model None unless satisfiable)."""
     solver = z3.SolverFor('QF_BV')
     solver.add(*ex.assumptions)
-    for qname, formula, text, kind in items:
+    pre_answers = None
+    if parallel:
+        import containercheck
+        pre_answers = containercheck.solve_batch([(q_, f_, t_, k_, (), solver) for q_, f_, t_, k_ in items], timeout_s)
+    for idx, (qname, formula, text, kind) in enumerate(items):
         t = time.time()
-        solver.push()
-        solver.add(formula)
-        r = solver.check()
-        m = solver.model() if r == z3.sat else None
-        solver.pop()
-        dt = time.time() - t
+        if pre_answers is not None and pre_answers[idx][0] == 'unsat':
+            r, m = z3.unsat, None
+        elif pre_answers is not None and pre_answers[idx][0] not in ('sat', 'unsat', 'error'):
+            raise Inconclusive('z3 answered %s on %s after %.0fs' % (pre_answers[idx][0], qname, pre_answers[idx][1]))
+        else:
+            solver.push()
+            solver.add(formula)
+            r = solver.check()
+            m = solver.model() if r == z3.sat else None
+            solver.pop()
+        dt = (time.time() - t) + (pre_answers[idx][1] if pre_answers is not None else 0.0)
         S.solver_s += dt
         if os.environ.get('VERIF_DEBUG'):
             log('  %s: %s %.1fs' % (qname, r, dt))
@@ -212,7 +249,7 @@ def extern_clause(S, tier):
     ext_bit = bv(1 << fdef.variant_by_name('External')[1], 8)
     is_ext = (flags & ext_bit) != bv(0, 8)
     loc = z3.BitVec('xloc', 8)
-    name = 'typer::fix_type_for_flags'
+    name = 'fix_type_for_flags'
     if name not in S.dump.fn_index:
         raise Inconclusive('%s not found in the MIR dump' % name)
     st = State()
@@ -235,20 +272,18 @@ def extern_clause(S, tier):
     # expected result of the external path
     if rt is not None:
         To = vtref.T(rt)
-        co = To.child()
-        coo = co.child() if co is not None else None
-        ext_top = zand(To.is_('View'), co.is_('EndlessArray') if co is not None else z3.BoolVal(False),
-                       rel_ext(coo.v, child.v) if (coo is not None and child is not None) else z3.BoolVal(False))
+        vk = kid(rt, 'View')
+        ext_top = zand(To.is_('View'), vtref.T(vk).is_('EndlessArray') if vk is not None else z3.BoolVal(False),
+                       rel_ext(kid(vk, 'EndlessArray'), child.v) if (vk is not None and child is not None) else z3.BoolVal(False))
         ext_result = zite(top_arraylike, ext_top, rel_ext(rt, t))
         is_ctx = lambda *ns: zor(*[ctx.discr == bv(cdef.variant_by_name(n)[1], 64) for n in ns])
         cc = child.child() if child is not None else None
         plain = zite(top_arraylike,
-                     zand(To.is_('Slice'), rel_same(co.v, child.v) if (co is not None and child is not None) else z3.BoolVal(False)),
+                     zand(To.is_('Slice'), rel_same(kid(rt, 'Slice'), child.v) if child is not None else z3.BoolVal(False)),
                      zite(zand(Tt.is_('Struct'), is_ctx('Parameter', 'Returned')),
-                          zand(To.is_('View'), rel_same(co.v, t) if co is not None else z3.BoolVal(False)),
+                          zand(To.is_('View'), rel_same(kid(rt, 'View'), t)),
                           zite(zand(Tt.is_('Pointer'), child.is_('Arraylike') if child is not None else z3.BoolVal(False)),
-                               zand(To.is_('SlicePointer'),
-                                    rel_same(co.v, cc.v) if (co is not None and cc is not None) else z3.BoolVal(False)),
+                               zand(To.is_('SlicePointer'), rel_same(kid(rt, 'SlicePointer'), cc.v) if cc is not None else z3.BoolVal(False)),
                                rel_same(rt, t))))
     else:
         ext_result = plain = z3.BoolVal(False)
@@ -351,8 +386,55 @@ def extern_clause(S, tier):
 def align_clause(S, tier):
     M = 3 if tier == 'quick' else 5
     ex = Executor(S.dump, S.defs, loop_bound=M + 2)
-    ex.abstract_types = {'Identifier': 16, 'Location': 8, 'String': 8}
+    ex.abstract_types = {'Location': 8, 'String': 8}
     ex.havoc_patterns = [r'HashMap::<u32, (?:typer::)?Structure>::insert$', r'::to_vec$']
+    idef = S.defs.find_struct('alpha::common::Identifier')
+    ridx = [f for f, _ in idef.fields].index('resolution_id')
+
+    def conc(m, x):
+        """Concrete leaf type (identifiers by resolution id) of the symbolic depth-1 type x in model m."""
+        d = m.eval(x.discr, model_completion=True).as_long()
+        _, v, fields = x.edef.variant_by_discr(d)
+        out_ = [v]
+        for sf in x.variants.get(v, ()):
+            if isinstance(sf, Agg):
+                out_.append(m.eval(sf.fields[ridx], model_completion=True).as_long())
+            elif isinstance(sf, EnumV):
+                some = m.eval(sf.discr, model_completion=True).as_long() == 1
+                out_.append(m.eval(sf.variants['Some'][0].fields[ridx], model_completion=True).as_long() if some else None)
+            elif isinstance(sf, (BoxV, BoxPtr)):
+                out_.append(('Void',))
+            else:
+                out_.append(m.eval(sf, model_completion=True).as_long())
+        return tuple(out_)
+
+    def bind1(x, c):
+        _, d, fields = x.edef.variant_by_name(c[0])
+        cons_ = [x.discr == bv(d, 64)]
+        for sf, cv in zip(x.variants.get(c[0], ()), c[1:]):
+            if isinstance(sf, Agg):
+                cons_.append(sf.fields[ridx] == bv(cv, 32))
+            elif z3.is_expr(sf):
+                cons_.append(sf == bv(cv, sf.size()))
+        return cons_
+
+    def same1(out, x):
+        """out (built by the code) is the depth-1 type x."""
+        if not isinstance(out, EnumV):
+            return z3.BoolVal(False)
+        cs = [out.discr == x.discr]
+        for vname in ('Struct', 'Word'):
+            if vname in x.variants:
+                here = x.discr == bv(x.edef.variant_by_name(vname)[1], 64)
+                fo = out.variants.get(vname)
+                if fo is None:
+                    cs.append(znot(here))
+                    continue
+                eqs = []
+                for a_, b_ in zip(fo, x.variants[vname]):
+                    eqs.append(a_.fields[ridx] == b_.fields[ridx] if isinstance(b_, Agg) else a_ == b_)
+                cs.append(z3.Implies(here, zand(*eqs)))
+        return zand(*cs)
     edef = S.defs.find_enum('alpha::error::Error')
     hits = [n for n in S.dump.function_names() if re.search(r'typer\.rs:\d+:\d+: \d+:\d+>::align_struct$', n)]
     if len(hits) != 1:
@@ -379,9 +461,12 @@ def align_clause(S, tier):
     mslice = SliceRef(members, bv(0, 64), n)
     stype = ex.fresh_value(VT, 'astruct', depth=1)
     Ts = vtref.T(stype)
-    ident = Opaque('identifier')
+    ident = ex.fresh_value('alpha::common::Identifier', 'aident', depth=1)
+    tdef = S.defs.find_struct('alpha::typer::Typer')
+    if tdef is None:
+        raise Inconclusive('struct Typer not found')
     st = State()
-    st.mem[(0, 'typer')] = Opaque('typer')
+    st.mem[(0, 'typer')] = Agg([Opaque('typer.' + (f or str(i))) for i, (f, _t) in enumerate(tdef.fields)], 'Typer')
     try:
         g, res = ex.call_function(S.dump.get(hits[0]), [PlaceRef((0, 'typer')), ValRef(ident), mslice,
                                                        EnumV(rdef, bv(0, 64), {'Ok': (stype,)})], z3.BoolVal(True), st)
@@ -445,8 +530,8 @@ def align_clause(S, tier):
             unconfirmed.append('%s: the bounded models are exceeded' % qname)
             return
         k = m.eval(n, model_completion=True).as_long()
-        ms = [vtlib.from_model(m, x, S.kinds) for x in mtypes[:k]]
-        sv = vtlib.from_model(m, stype, S.kinds)
+        ms = [conc(m, x) for x in mtypes[:k]]
+        sv = conc(m, stype)
         line = 'align %s %s' % (vtlib.wire(sv), ' '.join(vtlib.wire(x) for x in ms))
         got = native(S, [line.strip()])[0]
         want = c_align(sv, ms)
@@ -463,14 +548,14 @@ def align_clause(S, tier):
         ('word:total', zand(base, zor(znot(g), *panics)), 'align_struct returns without overflow or failed assertion', 'align'),
         ('word:e380-iff', zand(base, g, is_ok != zor(Ts.is_('Struct'), fits)), e380_text, 'align'),
         ('word:e380-report', zand(base, g, Ts.is_('Word'), znot(fits), znot(zand(is_e380, bits_ok))), e380_text, 'align'),
-        ('word:type-unchanged', zand(base, g, is_ok, znot(rel_same(rt, stype))) if rt is not None else z3.BoolVal(False),
+        ('word:type-unchanged', zand(base, g, is_ok, znot(same1(rt, stype))) if rt is not None else z3.BoolVal(False),
          'an accepted structure or word keeps its type', 'align'),
         ('word:witness-fits', zand(base, g, Ts.is_('Word'), fits, n == bv(M, 64), need == declared), 'witness: a word that fits exactly', 'witness'),
         ('word:witness-padding', zand(base, g, Ts.is_('Word'), znot(fits), z3.ULE(total, declared)),
          'witness: a word that is too small only because of padding', 'witness'),
         ('word:model-bounds', zand(pre, znot(in_model)), 'the loop unrolling suffices for every member list within the bound', 'bounds'),
     ]
-    _solve(S, ex, items, handle)
+    _solve(S, ex, items, handle, parallel=True)
     S.functions += ['Typer::align_struct', 'typer::align']
 
     # native validation
@@ -488,9 +573,9 @@ def align_clause(S, tier):
     s2.add(*ex.assumptions)
     used, bad = 0, []
     for (sv, ms), line, outl in zip(reqs, lines, got):
-        cons = [n == bv(len(ms), 64)] + bind(stype, sv, S.kinds)
+        cons = [n == bv(len(ms), 64)] + bind1(stype, sv)
         for x, c in zip(mtypes, ms):
-            cons += bind(x, c, S.kinds)
+            cons += bind1(x, c)
         s2.push()
         s2.add(*cons)
         if s2.check() != z3.sat:
@@ -501,7 +586,7 @@ def align_clause(S, tier):
         if not z3.is_true(m.eval(g, model_completion=True)):
             enc = 'PANIC'
         elif z3.is_true(m.eval(is_ok, model_completion=True)):
-            enc = 'ok ' + vtlib.wire(vtlib.from_model(m, rt, S.kinds))
+            enc = 'ok ' + vtlib.wire(conc(m, rt))
         elif z3.is_true(m.eval(is_e380, model_completion=True)):
             fs = err.variants['WordSizeMismatch']
             enc = 'err380:%d:%d' % (m.eval(fs[names.index('inferred_size_in_bits')], model_completion=True).as_long(),
